@@ -113,6 +113,7 @@ type Exec struct {
 	errorType  types.Type
 	funcByName map[string]*ssa.Function
 
+	fmtStrict     bool
 	pendingPanics []pendingPanic
 	oracleCache   map[*ssa.Function]bool
 }
